@@ -11,6 +11,9 @@ import (
 	"os/exec"
 
 	"verif/internal/sup"
+
+	"github.com/goatcms/goatcore/app/modules/commonm/commservices"
+	"github.com/goatcms/goatcore/app/modules/commonm/commservices/envs"
 )
 
 var shellNames = []string{"PATH", "IFS", "HOME", "ENV", "CDPATH", "LANG", "LC_ALL", "TERM", "SHELL", "USER", "MAIL", "TMPDIR"}
@@ -98,7 +101,29 @@ func runReuse(c *sup.Child, b sup.Batch) {
 				r.Inconclusive = why
 				return
 			}
-			e, err := newEnvs(m, useSetAll)
+			var e commservices.Environments
+			var err error
+			if useSetAll {
+				// the caller keeps using the map it passed to SetAll: it changes a value, adds a name
+				// that is not a plain identifier and a harmless one – the configuration must not follow
+				e = envs.NewEnvironments()
+				mine := map[string]string{}
+				for k, v := range m {
+					mine[k] = v
+				}
+				err = e.SetAll(mine)
+				if err == nil {
+					for k := range mine {
+						mine[k] = "changed by the caller after SetAll"
+						break
+					}
+					mine["X=1;touch canary;Y"] = "never configured"
+					mine["late_name"] = "never configured"
+					r.AddObs("maps_changed_by_the_caller_after_SetAll", 1)
+				}
+			} else {
+				e, err = newEnvs(m, false)
+			}
 			if err != nil {
 				r.Inconclusive = "a name made of letters and underscores was rejected: " + err.Error()
 				return
@@ -132,9 +157,16 @@ func runReuse(c *sup.Child, b sup.Batch) {
 					}
 					cur[k], cur[nk] = v, nv
 				}
-				if all := e.All(); len(all) != len(cur) {
+				all := e.All()
+				if len(all) != len(cur) {
 					r.Violate("configured-map-lost", fmt.Sprintf("[%s sandbox] generation %d: All() returns %d variables, %d are configured", variant, g, len(all), len(cur)), nil)
 					return
+				}
+				for k, v := range cur {
+					if got, ok := all[k]; !ok || got != v {
+						r.Violate("configured-map-lost", fmt.Sprintf("[%s sandbox] generation %d: All()[%s] = %s (present=%v), configured is %s", variant, g, k, q(got), ok, q(v)), nil)
+						return
+					}
 				}
 				script, err := buildScript(variant, e)
 				if err != nil {
